@@ -1,33 +1,7 @@
 (* C09: frame layout, acceptance soundness (flags, length, check sequences over the received
    bytes), refusal of resized frames. *)
 From Dlms Require Import Base Sweep CrcModel CrcSpec CrcProofs FieldsModel FieldsSpec FieldsProofs
-  AddrModel AddrSpec AddrProofs FrameModel.
-
-(* ---------- reference layout ---------- *)
-Definition std_control (k : fkind) (f : frame) : N :=
-  match k with
-  | KSnrm => std_ctrl_SNRM true | KUa => std_ctrl_UA true | KDisc => std_ctrl_DISC true
-  | KRr => std_ctrl_RR (f_rsn f) true
-  | KInfo => std_ctrl_I (f_ssn f) (f_rsn f) (f_final f)
-  | KUi => std_ctrl_UI (f_final f)
-  end.
-Definition std_info (k : fkind) (f : frame) : bytes :=
-  match k with KUa | KInfo | KUi => match f_payload f with Some p => p | None => [] end | _ => [] end.
-(* everything between the flags: format(2) dest src control(1) [HCS(2)] info FCS(2) *)
-Definition std_length (k : fkind) (f : frame) : N :=
-  2 + len (std_addr (f_dest f)) + len (std_addr (f_src f)) + 1
-  + (match k with KUa | KInfo | KUi => 2 | _ => 0 end) + len (std_info k f) + 2.
-Definition std_frame_header (k : fkind) (f : frame) : bytes :=
-  std_format (std_length k f) (f_segmented f) ++ std_addr (f_dest f) ++ std_addr (f_src f) ++ [std_control k f].
-Definition std_frame (k : fkind) (f : frame) : bytes :=
-  let h := std_frame_header k f in
-  let hcs := match k with KUa | KInfo | KUi => x25_fcs h | _ => [] end in
-  let content := h ++ hcs ++ std_info k f in
-  [126] ++ content ++ x25_fcs content ++ [126].
-
-Definition frame_ok (k : fkind) (f : frame) : Prop :=
-  addr_ok (f_dest f) /\ addr_ok (f_src f) /\ f_ssn f < 8 /\ f_rsn f < 8 /\
-  bytes_ok (std_info k f) /\ std_length k f <= 2047.
+  AddrModel AddrSpec AddrProofs FrameModel FrameSpec.
 
 (* ---------- byte-range facts ---------- *)
 Definition chk_x25_out (r : N) : bool := N.lxor r 0xFFFF <? 65536.
